@@ -194,9 +194,11 @@ def write_gen_workspace(U, cases, gdir, shards=GEN_SHARDS):
         let cid = match it.next() { Some(c) if !c.is_empty() => c, _ => continue };
         let ops: Vec<String> = it.map(|s| s.to_string()).collect();
         dispatch(cid, &ops, &mut arena, &mut out);
-        if out.len() > (1 << 20) { print!("{}", out); out.clear(); }
+        // one flush per case: after an abort (e.g. a failed huge allocation) the orchestrator knows where to resume
+        out.push_str(&format!("{} done\n", cid));
+        { use std::io::Write; let so = std::io::stdout(); let mut l = so.lock(); l.write_all(out.as_bytes()).unwrap(); l.flush().unwrap(); }
+        out.clear();
     }
-    print!("{}", out);
 }""")
         src = "\n".join(body) + "\n"
         p = os.path.join(cdir, "src", "main.rs")
@@ -235,23 +237,63 @@ def build_gen(gdir, tdir):
 
 
 def run_impl(parts, ops_of, gdir, tdir, tag):
-    """ops_of: cid -> list of op strings. Returns (obs dict, base address, errors)."""
-    cmds, files = [], []
-    for k, part in enumerate(parts):
-        p = os.path.join(gdir, "%s_ops_%d.txt" % (tag, k))
-        write_lines(p, ["%s %s" % (c.cid, " ".join(ops_of(c))) for c in part if ops_of(c)])
-        cmds.append([os.path.join(tdir, "debug", "gen_s%d" % k), p])
-    res = run_parallel(cmds, timeout=3000)
+    """ops_of: cid -> list of op strings. Returns (obs dict, base address per case, errors).
+    A shard that aborts (e.g. allocation failure) is resumed after the case that killed it; that
+    case gets the observation (cid, 'crash')."""
     obs, errs, bases = {}, [], {}
-    for k, (rc, out, err) in enumerate(res):
-        if rc != 0:
-            errs.append("generated shard %d exited with %d: %s" % (k, rc, err[-400:]))
-        for line in out.splitlines():
-            if line.startswith("base "):
-                b = int(line.split()[1], 16)
-                for c in parts[k]:
-                    bases[c.cid] = b
-        obs.update(parse_obs(out))
+    pending = {k: [c for c in part if ops_of(c)] for k, part in enumerate(parts)}
+    for attempt in range(40):
+        todo = {k: cs for k, cs in pending.items() if cs}
+        if not todo:
+            break
+        cmds, keys = [], []
+        for k, cs in todo.items():
+            p = os.path.join(gdir, "%s_ops_%d.txt" % (tag, k))
+            write_lines(p, ["%s %s" % (c.cid, " ".join(ops_of(c))) for c in cs])
+            cmds.append([os.path.join(tdir, "debug", "gen_s%d" % k), p])
+            keys.append(k)
+        res = run_parallel(cmds, timeout=3000)
+        for k, (rc, out, err) in zip(keys, res):
+            done = set()
+            base = None
+            for line in out.splitlines():
+                if line.startswith("base "):
+                    base = int(line.split()[1], 16)
+                elif line.endswith(" done") and line.count(" ") == 1:
+                    done.add(line.split(" ")[0])
+            o = parse_obs(out)
+            cs = pending[k]
+            for c in cs:
+                if base is not None:
+                    bases.setdefault(c.cid, base)
+            if rc == 0:
+                obs.update(o)
+                pending[k] = []
+                continue
+            # keep the observations of completed cases; the first incomplete case crashed the process
+            crashed = None
+            rest = []
+            for c in cs:
+                if c.cid in done:
+                    continue
+                if crashed is None:
+                    crashed = c
+                else:
+                    rest.append(c)
+            for (cid, kind), val in o.items():
+                if cid in done:
+                    obs[(cid, kind)] = val
+            if crashed is None:
+                errs.append("generated shard %d exited with %d after completing every case: %s" % (k, rc, err[-300:]))
+                pending[k] = []
+            else:
+                obs[(crashed.cid, "crash")] = "ABORT rc=%d %s" % (rc, err.strip().splitlines()[0][:200] if err.strip() else "")
+                for (cid, kind), val in o.items():
+                    if cid == crashed.cid:
+                        obs[(cid, kind)] = val
+                pending[k] = rest
+    else:
+        errs.append("generated shards kept aborting (more than 40 restarts)")
     return obs, bases, errs
 
 
